@@ -126,8 +126,12 @@ fn inline_table_keyvals(
 }
 
 fn keyval(input: &mut Input<'_>) -> ModalResult<(Vec<Key>, (Key, Item))> {
-    (
-        key,
+    let mut path = key.parse_next(input)?;
+    let key = path.pop().expect("grammar ensures at least 1");
+
+    // The tables created by a dotted key nest the value
+    let (_, v) = check_recursion_n(
+        path.len(),
         cut_err((
             one_of(KEYVAL_SEP)
                 .context(StrContext::Expected(StrContextValue::CharLiteral('.')))
@@ -135,17 +139,13 @@ fn keyval(input: &mut Input<'_>) -> ModalResult<(Vec<Key>, (Key, Item))> {
             (ws.span(), value, ws.span()),
         )),
     )
-        .map(|(key, (_, v))| {
-            let mut path = key;
-            let key = path.pop().expect("grammar ensures at least 1");
+    .parse_next(input)?;
 
-            let (pre, v, suf) = v;
-            let pre = RawString::with_span(pre);
-            let suf = RawString::with_span(suf);
-            let v = v.decorated(pre, suf);
-            (path, (key, Item::Value(v)))
-        })
-        .parse_next(input)
+    let (pre, v, suf) = v;
+    let pre = RawString::with_span(pre);
+    let suf = RawString::with_span(suf);
+    let v = v.decorated(pre, suf);
+    Ok((path, (key, Item::Value(v))))
 }
 
 #[cfg(test)]
